@@ -298,6 +298,10 @@ def _path(ctx, params):
         for (na, a), (nb, b) in zip(seq, seq[1:]):
             up.append(_b(b > a))
         ctx.check("C03.objective_never_increases", zor(up), info=dict(info, sequence=[s[0] for s in seq]))
+        # the values the solver REPORTS (state.fun of the callbacks, result.fun) do not increase either
+        rep = [seq[0][1]] if seq and (ck_info is None and run.fcalls or ck_info is not None) else []
+        rep += [SReal.of(c["snap"]["fun"]) for c in run.cb] + [fun]
+        ctx.check("C03.reported_fun_never_increases", zor(_b(b > a) for a, b in zip(rep, rep[1:])), info=info)
         # a failed line search leaves the iterate where it was
         moved = []
         for i, c in enumerate(run.ls_calls):
